@@ -18,7 +18,7 @@ ASSUMPTIONS = [
     "for the 512/521-bit curve moduli the depth measured in the search is ~0.4 per bit (recorded in the evidence, must stay < 600); "
     "from ~4096-bit moduli on a RecursionError is possible and is NOT modelled",
     "pow(a, -1, m) and pow(b, e, m) are CPython primitives: modelled (extended Euclid / square-and-multiply), tied by correspondence",
-    "sqrt theorems assume p prime (hypothesis Nat.Prime p); primality of the 34 curve constants is a hypothesis (DESIGN.md section 4)",
+    "sqrt theorems assume p prime (hypothesis Nat.Prime p); primality of the 34 curve constants is proved from kernel-checked Pocklington certificates (Props/NamedPrimes)",
     "the gmpy/gmpy2 variants of inverse_mod are not modelled (not installed); the pre-3.8 fallback loop is translated and proved equal "
     "to the live variant for m >= 1, gcd(a, m) = 1",
     "no theorem of C15 is partial: the p = 1 (mod 8) branch (sqrt_1mod8) is proved in full, incl. existence of b and the asserts",
